@@ -196,7 +196,7 @@ func (l *Lexer) Next() (TokenType, []byte) {
 		if l.consumeIdentifierToken() {
 			if prevNumericLiteral {
 				l.err = parse.NewErrorLexer(l.r, "unexpected identifier after number")
-				return ErrorToken, nil
+				return ErrorToken, l.r.Shift() // the rejected identifier must not become part of the next token
 			} else if keyword, ok := Keywords[string(l.r.Lexeme())]; ok {
 				return keyword, l.r.Shift()
 			}
